@@ -60,6 +60,8 @@ def pseudonym_index(repl, max_n):
         m = re.fullmatch(r"netconanRemoved(\d+)", txt)
         if m:
             return int(m.group(1))
+        if spec_class(repl) == "jun9" and spec_class(txt) in ("numeric", "hex", "type7"):
+            return pseudonym_index(txt, max_n)      # `$9$` of a clear text that was first seen (and rendered) in another class
     return None
 
 
@@ -106,6 +108,16 @@ def gen_history(rng, n, classes=None, pool_size=6, same_plain9=True, nsalts=2, s
         for k in range(nsalts):                                             # $9$ encodings of one plaintext, salts cycled
             pool.append((ref_encrypt(p, ALPHA[(salt0 + k) % 65]), "jun9"))
         pool.append((p, "text"))                                            # ... and the clear text itself
+        if classes is None or ("numeric" in classes and "hex" in classes):
+            p2 = rng.choice(["%08d" % rng.randint(10 ** 6, 10 ** 8 - 1), "".join(rng.choice("abcdef") for _ in range(3)) + "%05d" % rng.randint(0, 99999)])
+            for k in range(nsalts):                                         # the same with an all-digit / hexadecimal plaintext
+                pool.append((ref_encrypt(p2, ALPHA[(salt0 + 3 * k + 2) % 65]), "jun9"))
+            pool.append((p2, spec_class(p2)))
+    if classes is None or ("type7" in classes and "hex" in classes):
+        from passlib.hash import cisco_type7 as _t7
+        p3 = rng.choice(["%08d" % rng.randint(10 ** 6, 10 ** 8 - 1), "c0ffee%02d" % rng.randint(0, 99)])
+        e3 = next(e for e in (_t7.using(salt=(k + rng.randint(0, 15)) % 16).hash(p3) for k in range(16)) if spec_class(e) == "type7")
+        pool += [(e3, "type7"), (p3, spec_class(p3))]           # a type-7 encoding of a string and the string: two secrets
     if odd_names:
         pool.append(("netconanRemoved%d" % rng.randint(0, 3), "text"))      # a secret that looks like a pseudonym
         if classes is None or "hex" in classes:
@@ -265,6 +277,56 @@ def c07_scope(res, pid, rng, tier):
                 if m and (m.group(0) in a or any(m.group(0) in x for _, x in g1[i])):
                     fails.append({"kind": "the secret survives in the output or in an INFO+ log record", "salt": cfg.salt,
                                   "line": lines1[i], "output": a, "logs": g1[i]})
+    # --- round 6 probes
+    # (a) -p together with -w where the listed word is a piece of a keyword of the line form (`pksecret`, `snmp-community`,
+    #     `domain-password`, `<pre_shared_key>`): the secret is replaced whatever the word stage does to the keyword
+    kw_words = [w for w in ("secret", "communit", "passwor", "shared", "ppp", "authent", "md5", "snmp", "key", "PreShared", "cipher", "ENC")
+                if not L.is_reserved(w)]
+    cfgw = fa.FaCfg(salt=SALTS[res.seed % len(SALTS)], pwd=True, words=kw_words)
+    forms_w = [(t, c) for t, c in L.FORMS if "text" in c] + [(t, ("text32",)) for t in L.AWS_FORMS]
+    forms_w += [("set pksecret ENC {}", ("text",)), ("rf-switch snmp-community {}", ("text",)), ("domain-password {}", ("text",)),
+                ("ppp pap sent-username bob password 0 {}", ("text",))]
+    lines_w, secs_w = [], []
+    for t, c in forms_w:
+        sv = "".join(rng.choice(L.B64) for _ in range(32)) if "text32" in c else "Zq" + re.sub(r"[^A-Za-z0-9]", "x", L.gen_secret(rng, "text")) + "w7"
+        if any(k.lower() in sv.lower() for k in kw_words):
+            continue
+        lines_w.append(t.format(sv) + "\n")
+        secs_w.append(sv)
+    try:
+        ow, _ = run_lines(cfgw, lines_w)
+    except Exception as e:  # noqa
+        fails.append({"kind": "anonymize_io raised on a recognised line form", "exc": repr(e), "salt": cfgw.salt, "words": kw_words})
+        ow = []
+    for ln, sv, out in zip(lines_w, secs_w, ow):
+        res.evaluations += 1
+        if sv in out:
+            fails.append({"kind": "the secret survives in the output or in an INFO+ log record", "salt": cfgw.salt, "sensitive_words": kw_words,
+                          "line": ln, "output": out})
+    # (b) clear-text secrets that contain `$1$` / `$9$` behind a punctuation character, and two-secret lines with one hash-shaped
+    #     secret: the whole value is replaced by one pseudonym (the catch-all patterns come last)
+    cfgh = fa.FaCfg(salt=SALTS[(res.seed + 3) % len(SALTS)], pwd=True)
+    hv = ["p@$1$w0rdXy", "ab:$9$cdEf12Gh", "k,$1$abcd$efghijkl", "Zx!$9$Qz1F3n6", "q=$1$zz", "(t)$9$aB"]
+    forms_h = ["username bob password 0 {}", "snmp-server community {} RO", "enable password {}", " ip ospf authentication-key {}", "isis password {}",
+               "tacacs-server key {}", "ip ftp password {}"]
+    lines_h = [f_.format(v) + "\n" for f_ in forms_h for v in hv]
+    lines_h += ["snmp-server user u1 g1 v3 auth sha %s priv aes 128 %s\n" % (a_, b_) for a_, b_ in
+                (("$1$abcd$0123456789abcdefghijkl", "PrivPass77x"), ("AuthPass88y", "$9$Qz1F3n6/9CAtpu0O"), ("Plain1Secretq", "Other2Secretz"))]
+    try:
+        oh, _ = run_lines(cfgh, lines_h)
+    except Exception as e:  # noqa
+        fails.append({"kind": "anonymize_io raised on a recognised line form", "exc": repr(e), "salt": cfgh.salt})
+        oh = []
+    for ln, out in zip(lines_h, oh):
+        res.evaluations += 1
+        toks_in = set(ln.split())
+        for tk in out.split():
+            # a piece of a secret next to a pseudonym (`p@netconanRemoved0`), or a secret token kept
+            if ("netconanRemoved" in tk and not tk.startswith("netconanRemoved")) or (tk in toks_in and any(tk == v for v in hv)) \
+                    or tk in ("PrivPass77x", "AuthPass88y", "Plain1Secretq", "Other2Secretz"):
+                fails.append({"kind": "the secret survives in the output or in an INFO+ log record", "salt": cfgh.salt, "line": ln, "output": out,
+                              "detail": "a piece of the secret is left next to the pseudonym, or one of two secrets is kept"})
+                break
     # white space other than blank and tab between the keyword and the secret
     sepl = []
     for sp_ in ("\x0c", "\x0b", "\x1c", "\x1e", "\x85", "\xa0", "\u2028", " \x0c ", "\t\x0b"):
@@ -377,6 +439,7 @@ def c08_scope(res, pid, rng, tier):
         res.sample({"salt": cfg.salt, "lines": lines[:3], "outputs": outs[:3]}, limit=3)
         seen = {}      # secret key -> index
         used = {}      # index -> secret key
+        lit = {}       # secret key -> replacement as written (`$9$` replacements decrypted)
         for (t, w, s, c), ln, out in zip(hist, lines, outs):
             res.evaluations += 1
             rep = extract(out, t, w)
@@ -402,6 +465,42 @@ def c08_scope(res, pid, rng, tier):
                               "secret": s, "other_secret": used[idx], "line": ln, "output": out, "index": idx})
             seen[key] = idx
             used[idx] = key
+            canon = rep
+            if spec_class(rep) == "jun9":
+                try:
+                    canon = ref_decrypt(rep)    # a `$9$` replacement counts as its plaintext
+                except ValueError:
+                    pass
+            if key in lit and lit[key] != canon:
+                fails.append({"kind": "equal secrets received different replacements", "salt": cfg.salt, "secret": s, "line": ln, "output": out,
+                              "replacement_now": canon, "replacement_before": lit[key]})
+            lit.setdefault(key, canon)
+        # two different secrets on one line that is handled by a group of two patterns (auth / priv): each gets its own pseudonym,
+        # the one it has on every other line
+        x_, y_ = "Au7h" + L.gen_secret(rng, "text").strip("-")[:8] + "q", "Pr1v" + L.gen_secret(rng, "text").strip("-")[:8] + "z"
+        x_, y_ = re.sub(r"[^A-Za-z0-9]", "k", x_), re.sub(r"[^A-Za-z0-9]", "m", y_)
+        two = ["snmp-server community %s RO\n" % x_, "snmp-server user u1 g1 v3 auth sha %s priv aes 128 %s\n" % (x_, y_),
+               "snmp-server community %s RW\n" % y_, "snmp-server user u2 g1 v3 auth md5 %s priv des %s\n" % (y_, x_),
+               "snmp-server user u3 g1 v3 auth sha %s priv aes 128 %s\n" % (x_, x_)]
+        try:
+            o2, _ = run_lines(cfg, two)
+        except Exception as e:  # noqa
+            fails.append({"kind": "anonymize_io raised", "exc": repr(e), "salt": cfg.salt})
+            o2 = []
+        if o2:
+            res.evaluations += len(two)
+            rx, ry = o2[0].split()[2], o2[2].split()[2]
+            want = [None, (rx, ry), None, (ry, rx), (rx, rx)]
+            for ln, out, w_ in zip(two, o2, want):
+                if w_ is None:
+                    continue
+                tk = out.split()
+                got = (tk[7], tk[-1]) if len(tk) >= 9 else None
+                if rx == ry or got != w_:
+                    fails.append({"kind": "equal secrets received different replacements" if rx != ry else "different secrets received the same replacement",
+                                  "salt": cfg.salt, "lines": two, "outputs": o2, "line": ln, "output": out,
+                                  "replacement_of_first_secret_elsewhere": rx, "replacement_of_second_secret_elsewhere": ry})
+                    break
     return [], fails
 
 
@@ -553,7 +652,8 @@ def c09_scope(res, pid, rng, tier):
         if r % 3 == 1:
             # a sensitive word that occurs inside some of the secrets: the secret is replaced first, so its format class is the original's
             picks = [h[2] for h in hist if h[3] in ("numeric", "type7", "hex", "md5") and len(h[2]) >= 8][:3]
-            cfg = fa.FaCfg(salt=cfg.salt, pwd=True, words=[p_[3:7] for p_ in picks] or ["zzzq"])
+            # (pieces with a letter: an all-digit piece can turn up in the digits of a numeric replacement by chance)
+            cfg = fa.FaCfg(salt=cfg.salt, pwd=True, words=[p_[3:7] for p_ in picks if not p_[3:7].isdigit()] or ["zzzq"])
         # all type-7 salts, all md5 salt lengths, many $9$ salt characters
         for k in range(16):
             hist.append((" password 7 {}", "{}", cisco_type7.using(salt=k).hash("pw%dxyz" % k), "type7"))
